@@ -343,42 +343,51 @@ def make_machine(ctx, tier):
             if ff:
                 # fast-forward so that most histories reach the end of
                 # exploration and spend their rules in the sampling phase
-                self.it.apply(['step', ff])
+                self.apply(['step', ff])
 
         def ok(self):
-            return self.it is not None and not self.it.dead and \
-                not ctx.out_of_time()
+            # must be a deterministic function of the choices made so far
+            # (Hypothesis checks that data generation is reproducible): the
+            # wall-clock budget is therefore NOT consulted here
+            return self.it is not None and not self.it.dead
+
+        def apply(self, op):
+            if ctx.out_of_time():
+                # ends the whole Hypothesis run (caught in shard()); results
+                # of all finished histories are already recorded
+                raise BudgetExhausted()
+            self.it.apply(op)
 
         @precondition(lambda self: self.ok())
         @rule(k=st.sampled_from([1, 1, 2, 3, 5, 8]))
         def step(self, k):
-            self.it.apply(['step', k])
+            self.apply(['step', k])
 
         @precondition(lambda self: self.ok())
         @rule(k=st.sampled_from([0, 1, 2, 4]))
         def step_timeout(self, k):
-            self.it.apply(['timeout', k])
+            self.apply(['timeout', k])
 
         @precondition(lambda self: self.ok())
         @rule(v=st.booleans())
         def toggle(self, v):
-            self.it.apply(['toggle', v])
+            self.apply(['toggle', v])
 
         @precondition(lambda self: self.ok())
         @rule(v=st.booleans(), k=st.sampled_from([1, 2, 5]))
         def run_with_discard(self, v, k):
-            self.it.apply(['rwd', v, k])
+            self.apply(['rwd', v, k])
 
         @precondition(lambda self: self.ok() and
                       self.it.lab.sampler.n_like > 0)
         @rule()
         def resume(self):
-            self.it.apply(['resume'])
+            self.apply(['resume'])
 
         @precondition(lambda self: self.ok())
         @rule(name=st.sampled_from(hs.ACCESSORS))
         def accessor(self, name):
-            self.it.apply(['accessor', name])
+            self.apply(['accessor', name])
 
         def teardown(self):
             if self.it is None:
@@ -392,7 +401,23 @@ def make_machine(ctx, tier):
     return Machine
 
 
+class BudgetExhausted(BaseException):
+    pass
+
+
 def shard(ctx, tier, i, n):
+    try:
+        _shard(ctx, tier, i, n)
+    except BaseException:
+        # after the budget ran out every rule raises BudgetExhausted, which
+        # Hypothesis may report as such or wrapped (Flaky...); before that,
+        # exceptions are real harness errors
+        if not ctx.out_of_time():
+            raise
+        ctx.notes.append('budget exhausted: generation stopped early')
+
+
+def _shard(ctx, tier, i, n):
     p = plan(tier)
     Machine = make_machine(ctx, tier)
     sd = derive_seed(ctx.seed, ID, i)
